@@ -175,13 +175,24 @@ def texFold (limit : Nat) : Bytes × List Nat → List Bytes → Except LumpErr 
 def texWrite (limit : Nat) (names : List Bytes) : Except LumpErr (Bytes × List Nat) :=
   texFold limit ([], []) names
 
-/-- The offsets table lump: each offset packed `<i`. -/
-def offsTable : List Nat → Except LumpErr Bytes
+/-- `struct.pack('<i', n)` of a non-negative number.  (Written with combinators, not `match`, so
+that no matcher ever has `packInt 4 true ↑n` with a symbolic `n` as discriminant.) -/
+def pack32 (n : Nat) : Except LumpErr Bytes :=
+  (packInt 4 true n).mapError (fun _ => LumpErr.range)
+
+/-- concatenation of byte strings, failing with the first error -/
+def catOk : List (Except LumpErr Bytes) → Except LumpErr Bytes
   | [] => .ok []
-  | o :: os =>
-    match packInt 4 true o, offsTable os with
-    | .ok b, .ok r => .ok (b ++ r)
-    | _, _ => .error .range
+  | x :: xs =>
+    match x with
+    | .error e => .error e
+    | .ok b =>
+      match catOk xs with
+      | .error e => .error e
+      | .ok r => .ok (b ++ r)
+
+/-- The offsets table lump: each offset packed `<i`. -/
+def offsTable (offs : List Nat) : Except LumpErr Bytes := catOk (offs.map pack32)
 
 /-- index of the first NUL in `b`, if any -/
 def nulIdx : Bytes → Option Nat
@@ -197,10 +208,12 @@ def texReadOne (limit : Nat) (data : Bytes) (off : Nat) : Except LumpErr Bytes :
 def texRead (limit : Nat) (data : Bytes) : List Nat → Except LumpErr (List Bytes)
   | [] => .ok []
   | o :: os =>
-    match texReadOne limit data o, texRead limit data os with
-    | .ok s, .ok r => .ok (s :: r)
-    | .error e, _ => .error e
-    | _, .error e => .error e
+    match texReadOne limit data o with
+    | .error e => .error e
+    | .ok s =>
+      match texRead limit data os with
+      | .error e => .error e
+      | .ok r => .ok (s :: r)
 
 /-! ## `128s` model-name dictionary (static props, detail props) -/
 
@@ -247,22 +260,18 @@ def visRows : Nat → List Bytes → List Bytes → List (Nat × Nat) × Bytes
     ((off, off + ep.length) :: r.1, ep ++ ea ++ r.2)
   | _, _, _ => ([], [])
 
-def visTable : List (Nat × Nat) → Except LumpErr Bytes
-  | [] => .ok []
-  | (p, a) :: rest =>
-    match packInt 4 true p, packInt 4 true a, visTable rest with
-    | .ok bp, .ok ba, .ok r => .ok (bp ++ ba ++ r)
-    | _, _, _ => .error .range
+def visEntry (e : Nat × Nat) : Except LumpErr Bytes :=
+  (pack32 e.1).bind fun bp => (pack32 e.2).map fun ba => bp ++ ba
+
+def visTable (l : List (Nat × Nat)) : Except LumpErr Bytes := catOk (l.map visEntry)
 
 /-- `_lmp_write_visibility(vis)` for `vis` not None. -/
 def visWrite (pvs pas : List Bytes) : Except LumpErr Bytes :=
   if pvs.length ≠ pas.length then .error .mismatch
   else
-    let n := pvs.length
-    let r := visRows (4 + 8 * n) pvs pas
-    match packInt 4 true n, visTable r.1 with
-    | .ok hdr, .ok tbl => .ok (hdr ++ tbl ++ r.2)
-    | _, _ => .error .range
+    (pack32 pvs.length).bind fun hdr =>
+      (visTable (visRows (4 + 8 * pvs.length) pvs pas).1).map fun tbl =>
+        hdr ++ tbl ++ (visRows (4 + 8 * pvs.length) pvs pas).2
 
 /-- rows of `_lmp_read_visibility`: for `i < count`, offsets at `4 + 8 i`. -/
 def visReadRows (data : Bytes) (count : Nat) : Nat → Nat → Except LumpErr (List Bytes × List Bytes)
@@ -275,12 +284,15 @@ def visReadRows (data : Bytes) (count : Nat) : Nat → Nat → Except LumpErr (L
       let ao := unpackInt 4 true (ent.drop 4)
       if po < 0 ∨ ao < 0 then .error .badData
       else
-        match rleDecode data po.toNat (some count), rleDecode data ao.toNat (some count),
-              visReadRows data count k (i + 1) with
-        | .ok p, .ok a, .ok r => .ok (p :: r.1, a :: r.2)
-        | .error _, _, _ => .error .rle
-        | _, .error _, _ => .error .rle
-        | _, _, .error e => .error e
+        match rleDecode data po.toNat (some count) with
+        | .error _ => .error .rle
+        | .ok p =>
+          match rleDecode data ao.toNat (some count) with
+          | .error _ => .error .rle
+          | .ok a =>
+            match visReadRows data count k (i + 1) with
+            | .error e => .error e
+            | .ok r => .ok (p :: r.1, a :: r.2)
 
 /-- `_lmp_read_visibility(data)` for non-empty data. -/
 def visRead (data : Bytes) : Except LumpErr (List Bytes × List Bytes) :=
